@@ -64,13 +64,16 @@ def control_vectors(U, p, n):
 def cases(tier, seed):
     b = bounds(tier, seed)
     for K in b["alphabets"]:
-        for p, U in al.knotvectors(K, b["pmax"], b["kmax"]):
+        core = K == "K0"
+        for p, U in al.knotvectors(K, b["pmax"] if core else 2, b["kmax"]):
             n = len(U) - p - 1
-            if tier == "quick" and p >= 2 and len(set(U)) > 3:
-                continue  # quick: two interior knots up to degree 1, one at degree 2
+            if (tier == "quick" or not core) and p >= 2 and len(set(U)) > 3:
+                continue  # quick (and the other alphabets of the thorough tier): two interior knots up to degree 1, one at degree 2
+            # thorough: full depth on the core alphabet except for the widest vectors (degree 3 with two interior knots)
+            depth = b["depth"] if (tier == "quick" or (core and not (p == 3 and len(set(U)) > 3))) else 2
             for i, (lab, P, W) in enumerate(control_vectors(list(U), p, n)):
-                yield (K, p, U, i, b["depth"])
-            yield (K, p, U, -1, b["depth"])  # float data
+                yield (K, p, U, i, depth)
+            yield (K, p, U, -1, depth)  # float data
 
 
 def describe(case):
